@@ -2567,3 +2567,35 @@ func c02AttemptEndsRemovedOrScheduled(c *Check, rule string) {
 	path, found := r.F.Reach(Query{From: r.Entry(), Inclusive: true, Target: r.F.IsNormalExit, Avoid: isPt(ends)})
 	c.Hold(rule, "tryDelivery:removed-or-scheduled", r.FI.Decl.Pos(), nRemove > 0 && !found, "an attempt can end without removing the message from the spool and without scheduling the next attempt ("+r.F.Describe(path)+"): the files stay behind with the record of the previous attempt – after a restart the recipients of that record are attempted again although they were delivered or reported")
 }
+
+// ---- C18.R19: every recipient block of a report carries the three fields a report must have.
+// RFC 3464 §2.3: Final-Recipient, Action and Status are required in every per-recipient group; a report without them is
+// not "a well-formed multipart/report" and a sender's software cannot tell which address failed or how. Decided on
+// dsn.RecipientInfo.WriteTo: every successful return has passed an h.Add of each of the three names (a survivor of the
+// mutant run of round 12: each Add could be deleted).
+func c18RequiredRecipientFields(c *Check, rule string) {
+	c.Rule(rule, "dsn.RecipientInfo.WriteTo: every successful return has passed the addition of Final-Recipient, of Action and of Status (the per-recipient fields RFC 3464 requires)", 3)
+	r := c.need(rule, "internal/dsn", "RecipientInfo", "WriteTo")
+	if r == nil {
+		return
+	}
+	info := r.Info
+	for _, field := range []string{"Final-Recipient", "Action", "Status"} {
+		var adds []Pt
+		for _, pt := range r.F.Points() {
+			if pt.Node() == nil {
+				continue
+			}
+			for _, call := range callsAt(pt.Node()) {
+				if m := methodName(call); (m != "Add" && m != "Set") || len(call.Args) < 1 {
+					continue
+				}
+				if tv, has := info.Types[call.Args[0]]; has && tv.Value != nil && strings.EqualFold(strings.Trim(tv.Value.ExactString(), "\""), field) {
+					adds = append(adds, pt)
+				}
+			}
+		}
+		path, found := r.F.Reach(Query{From: r.Entry(), Inclusive: true, Target: r.IsSuccessReturn, Avoid: isPt(adds)})
+		c.Hold(rule, "WriteTo:"+field, r.FI.Decl.Pos(), len(adds) > 0 && !found, "a recipient block can be written without its "+field+" field ("+r.F.Describe(path)+"): the report is not a well-formed delivery status notification – the sender's software cannot tell which recipient failed, or how")
+	}
+}
